@@ -219,6 +219,7 @@ def monitor_c06(ctx, scn, tv):
             finish_idx[ev["o"]] = (i, ev["status"])
     ncmds = len(start_idx)
     known_wanted = {}
+    never_started = None
     for i, ev in enumerate(tv.events):
         e = ev["e"]
         if e == "TOK":
@@ -288,7 +289,7 @@ def monitor_c06(ctx, scn, tv):
             # what ninja can know to be wanted now: dyndep files that are (re)generated in this build and have
             # not finished yet have not been loaded
             unloaded = frozenset(o2 for s2 in g.sc["stmts"] if s2["kind"] == "scan" for o2 in s2["outs"]
-                                 if o2 in start_idx and (finish_idx.get(o2) is None or finish_idx[o2][0] > i))
+                                 if o2 in start_idx and (finish_idx.get(o2) is None or finish_idx[o2][0] > i or finish_idx[o2][1] != 0))
             if unloaded not in known_wanted:
                 known_wanted[unloaded] = g.closure(tv.targets, unloaded=unloaded) if unloaded else None
             kw = known_wanted[unloaded]
@@ -325,6 +326,48 @@ def monitor_c06(ctx, scn, tv):
                 ctx.violation("C06/idle-slot/%s" % ("pool" if pool else "nopool"),
                               "scenario %s choices=%s: at wait %d ninja waits with %d/%s running although %s is startable (it starts later)" %
                               (scn["id"], tv.trace.get("_choices"), ev["n"], len(running), j, sid),
+                              {"scenario": scn, "choices": tv.trace.get("_choices")})
+                return
+            # ... or one that is needed, startable now, and never started at all although failure budget is left (the budget is
+            # what the property names: -k N lasts until N commands have failed, whatever else has completed meanwhile)
+            if failures == 0 or step.get("fail_start") or step.get("disk_faults") or step.get("interrupt_at", -1) not in (-1, None):
+                continue
+            if never_started is None:
+                try:
+                    exp, _ = model.expected_runs(g, tv.targets, {p: v for p, v in tv.world_before.items()}, tv.recs_before, tv.clean)
+                except model.Invalid:
+                    exp = set()
+                never_started = (exp, [sid for sid in sorted(exp) if g.by_id[sid]["outs"][0] not in start_idx])
+            exp, cands = never_started
+            for sid in cands:
+                if kw is not None and sid not in kw:
+                    continue
+                if _behind_pooled_phony(g, sid):
+                    continue
+                ok = True
+                for p in tv.ancestors(sid):
+                    st = g.by_id[p]
+                    po = st["outs"][0]
+                    if po in start_idx:
+                        fi = finish_idx.get(po)
+                        if fi is None or fi[0] > i or fi[1] != 0:
+                            ok = False
+                            break
+                    elif p in exp or g.restat(st) or st["kind"] == "scan" or st.get("dyndep"):
+                        # a prerequisite that has to run but did not, or one whose effect on what is needed the model does not pin down
+                        ok = False
+                        break
+                if not ok or g.by_id[sid].get("dyndep"):
+                    continue
+                pool = g.by_id[sid]["pool"] or ""
+                if pool:
+                    inpool = [r for r in running if (g.by_id[tv.sid_of[r]]["pool"] or "") == pool]
+                    if len(inpool) >= pools.get(pool, 10 ** 9):
+                        continue
+                ctx.violation("C06/idle-slot/never-started/%s" % ("pool" if pool else "nopool"),
+                              "scenario %s choices=%s: at wait %d ninja waits with %d/%s running and %d/%s failures although %s is needed, "
+                              "startable and never started" % (scn["id"], tv.trace.get("_choices"), ev["n"], len(running), j, failures,
+                                                               step.get("k"), sid),
                               {"scenario": scn, "choices": tv.trace.get("_choices")})
                 return
     res = tv.result
